@@ -8,7 +8,7 @@ package dag
 // committed state untouched and invokes OnRollback, a successful one invokes AfterCommit
 // after the lock is released; readers see committed state; shelves iterate in key byte order;
 // ReadShelf on a missing shelf yields the NilReader. Optional fault: the n-th Put/Delete of
-// the store's lifetime fails (failAt) or panics (crashAt) - n is chosen by the harness.
+// the store's lifetime fails (failAt) or stops the process (crashAt, vStop) - n is chosen by the harness.
 
 import (
 	"bytes"
@@ -29,8 +29,6 @@ type hKVShelf struct {
 	entries []hKVEntry // kept sorted by key bytes
 }
 
-type hKVCrash struct{}
-
 type hKV struct {
 	mu       sync.Mutex
 	shelves  []*hKVShelf // committed state
@@ -38,6 +36,7 @@ type hKV struct {
 	failAt   int         // 1-based index of the write operation that fails (0 = never)
 	crashAt  int         // 1-based index of the write operation that panics with hKVCrash (0 = never)
 	commitFails bool     // the next commit fails (ErrCommitFailed)
+	crashAfterCommit bool // the process stops right after the next commit (before AfterCommit hooks run)
 	commits  int
 	rollbacks int
 }
@@ -113,6 +112,10 @@ func (kv *hKV) Write(ctx context.Context, fn func(stoabs.WriteTx) error, opts ..
 	kv.shelves = tx.shelves
 	kv.commits++
 	kv.mu.Unlock()
+	if kv.crashAfterCommit {
+		kv.crashAfterCommit = false
+		vStop()
+	}
 	stoabs.AfterCommitOption{}.Invoke(opts)
 	return nil
 }
@@ -162,7 +165,7 @@ func (r *hKVShelfRW) fault() error {
 	kv := r.tx.kv
 	kv.writes++
 	if kv.crashAt != 0 && kv.writes == kv.crashAt {
-		panic(hKVCrash{})
+		vStop()
 	}
 	if kv.failAt != 0 && kv.writes == kv.failAt {
 		return stoabs.DatabaseError(errHKVInjected)
